@@ -1,7 +1,7 @@
 (* C06 — Fees are fully paid and exactly distributed. Property theorems only. *)
 From Coq Require Import List ZArith Bool.
 Import ListNotations.
-Require Import RV.Model.C06_Fee RV.Proof.C06_Fee RV.Gen.C06_consts.
+Require Import RV.Model.C06_Fee RV.Proof.C06_Fee RV.Proof.C06_Bounds RV.Gen.C06_consts.
 Open Scope Z_scope.
 
 (* every CostingParameters value the code constructs or stores (generated on every run) has unit
@@ -60,28 +60,53 @@ Theorem C06_no_commit_with_debt : forall ok r b r',
   determine_result ok r = (Commit b, r') -> owed r' = 0.
 Proof. exact no_commit_with_debt. Qed.
 
-(* Under TipExact, for a repaid reserve satisfying the invariant: finalize_fees_for_commit never trips
-   its bad-debt / required == 0 / split assertions nor take_by_amount; the amount taken from the locking
-   vaults plus the free credit used equals the total cost, which equals what the running balance
-   deducted; proposer + validator set + burn + royalties equals the same amount and the royalty
-   breakdown sums to the royalty total.
-   PARTIAL: (1) the side condition 0 <= deducted r (non-negative prices and unsigned unit counts) is a
-   hypothesis, not derived from the invariant; (2) an I192/I256 overflow panic (PkOverflow) is not
-   excluded (unreachable for amounts bounded by the XRD supply, not proved). *)
-Theorem C06_collected_equals_cost_partial : forall sh r ok s,
-  Inv r -> EffOk r -> TipExact (cp r) (tp_tip r) -> owed r = 0 -> 0 <= deducted r ->
-  finalize r = Some s ->
-  match distribute sh s (free_credit r) ok with
-  | DPanic k => k = PkOverflow
-  | DOk o =>
-      total_cost s = Some (d_collected o)
-      /\ d_collected o = deducted r
-      /\ bdsum (d_payments o) + d_free_used o = d_collected o
-      /\ 0 <= d_free_used o <= free_credit r
-      /\ d_proposer o + d_validator o + d_burn o + royalty_c r = d_collected o
-      /\ bdsum (d_royalties o) = royalty_c r
-  end.
-Proof. exact distribute_exact. Qed.
+(* Reachable reserves: after SystemLoanFeeReserve::new, any sequence of well-formed operations (unsigned
+   arguments non-negative, locked resources non-negative) and determine_result, the balance invariant
+   `Inv`, the non-negativity invariant `Pos` and the effective-price relation hold, and a Commit
+   classification implies that nothing is owed. *)
+Theorem C06_reachable_inv : forall p t free abort r0 os outs r1 ok res r2,
+  0 <= exec_limit p -> 0 <= fin_limit p -> 0 <= exec_loan p -> tip_wf t ->
+  reserve_new p t free abort = Some r0 -> Forall op_wf2 os -> run_ops r0 os = (outs, r1) ->
+  determine_result ok r1 = (res, r2) ->
+  Inv r2 /\ Pos r2 /\ EffOk r2 /\ cp r2 = p /\ tp_tip r2 = t /\ (forall b, res = Commit b -> owed r2 = 0).
+Proof. exact reachable_inv. Qed.
+
+(* the royalty reversal performed before finalising a failed transaction preserves all of that *)
+Theorem C06_revert_ok : forall r r',
+  apply_op r RevertRoyalty = (OOk, r') -> Inv r -> Pos r -> EffOk r ->
+  Inv r' /\ Pos r' /\ EffOk r' /\ owed r' = owed r /\ locked r' = locked r /\ cp r' = cp r
+  /\ tp_tip r' = tp_tip r /\ royalty_c r' = 0.
+Proof. exact revert_ok. Qed.
+
+(* Fees are fully paid and exactly distributed. For a reserve satisfying the invariants (every reachable
+   one: C06_reachable_inv / C06_revert_ok) whose loan is repaid, under TipExact, with share percentages
+   that are non-negative and sum to at most 100 %, every locked amount a representable Decimal and the
+   deducted amount at most Decimal::MAX (the stated bound that excludes the I192/I256 overflow panics):
+   finalize() and finalize_fees_for_commit do not panic (none of the three sanity assertions, no failing
+   take_by_amount, no overflow); the total cost equals what the running balance deducted; what is taken
+   from the locking vaults plus the free credit used (at most the free credit) equals the total cost;
+   proposer + validator set + burn + royalties equals the total cost with every part non-negative; the
+   royalty payments are exactly the recorded per-recipient breakdown and sum to the royalty cost; every
+   lock entry gets a non-negative refund to its own vault and refunds + payments = locked. *)
+Theorem C06_collected_equals_cost : forall sh r ok,
+  Inv r -> Pos r -> EffOk r -> TipExact (cp r) (tp_tip r) -> tip_wf (tp_tip r) -> owed r = 0 ->
+  shares_wf sh -> LocksBounded (locked r) -> deducted r <= I192_MAX ->
+  exists s o,
+    finalize r = Some s /\ distribute sh s (free_credit r) ok = DOk o
+    /\ total_cost s = Some (d_collected o) /\ d_collected o = deducted r
+    /\ bdsum (d_payments o) + d_free_used o = d_collected o
+    /\ 0 <= d_free_used o <= free_credit r
+    /\ d_proposer o + d_validator o + d_burn o + royalty_c r = d_collected o
+    /\ 0 <= d_proposer o /\ 0 <= d_validator o /\ 0 <= d_burn o
+    /\ d_royalties o = royalty_bd r /\ bdsum (d_royalties o) = royalty_c r
+    /\ map fst (d_refunds o) = map (fun e => fst (fst e)) (rev (locked r))
+    /\ NonNegZ (d_refunds o)
+    /\ bdsum (d_refunds o) + bdsum (d_payments o) = locksum (locked r).
+Proof. exact collected_equals_cost. Qed.
+
+(* the share constants generated from the code satisfy shares_wf *)
+Theorem C06_shares_wf : shares_wf c06_shares.
+Proof. vm_compute. repeat split; discriminate. Qed.
 
 (* the loop over the locked fees: what is still required afterwards is max 0 (required - eligible
    locks), and exactly the difference was collected and recorded as payments (C06_exact_split core) *)
@@ -95,10 +120,30 @@ Theorem C06_exact_split : forall ls ok req col pay refs,
   end.
 Proof. exact take_fees_spec. Qed.
 
-Example C06_nonvacuous : c06_params <> [] /\ TipExact (hd c06_witness_params c06_params) (TipBasisPoints 33).
+(* non-vacuity: with the genesis parameters and a 33 bp tip, a history with two locks (one contingent),
+   execution, finalisation, storage and a royalty commits, and distribution succeeds with 1.5 XRD of
+   royalties, a positive burn and a refund to both vaults *)
+Example C06_nonvacuous :
+  let p := hd c06_witness_params c06_params in
+  c06_params <> [] /\ TipExact p (TipBasisPoints 33) /\
+  exists r0 r1 r2 o,
+    reserve_new p (TipBasisPoints 33) 0 false = Some r0 /\
+    run_ops r0 [LockFee 1 (20 * ONE) false; LockFee 2 (5 * ONE) true; ConsumeExec 5000000;
+                ConsumeRoyalty (RXrd (3 * ONE / 2)) 7; ConsumeStorage SState 1000; ConsumeFin 300000]
+      = (repeat OOk 6, r1) /\
+    determine_result true r1 = (Commit true, r2) /\
+    commit_fees c06_shares r2 true = DOk o /\
+    bdsum (d_royalties o) = 3 * ONE / 2 /\ 0 < d_burn o /\
+    d_refunds o = [(2, 5 * ONE - d_collected o); (1, 20 * ONE)].
 Proof.
-  split; [vm_compute; discriminate|].
-  apply C06_genesis_params_exact. vm_compute. left. reflexivity.
+  cbv zeta. split; [vm_compute; discriminate|].
+  split; [apply C06_genesis_params_exact; vm_compute; left; reflexivity|].
+  destruct (reserve_new (hd c06_witness_params c06_params) (TipBasisPoints 33) 0 false) as [r0|] eqn:E0;
+    [|vm_compute in E0; discriminate].
+  exists r0. vm_compute in E0. injection E0 as <-.
+  eexists. eexists. eexists.
+  split; [reflexivity|]. split; [vm_compute; reflexivity|]. split; [vm_compute; reflexivity|].
+  split; [vm_compute; reflexivity|]. repeat split; vm_compute; reflexivity.
 Qed.
 
 Print Assumptions C06_genesis_params_exact.
@@ -106,5 +151,8 @@ Print Assumptions C06_inexact_refuted.
 Print Assumptions C06_limits.
 Print Assumptions C06_reserve_inv.
 Print Assumptions C06_no_commit_with_debt.
-Print Assumptions C06_collected_equals_cost_partial.
+Print Assumptions C06_collected_equals_cost.
+Print Assumptions C06_reachable_inv.
+Print Assumptions C06_revert_ok.
+Print Assumptions C06_shares_wf.
 Print Assumptions C06_exact_split.
